@@ -11,6 +11,6 @@ Extraction "../driver/model.ml"
   Ops.mk_literal Ops.vs_mk_literal Ops.mk_conjunctive_clause Ops.mk_disjunctive_clause Ops.of_valuation Ops.pv_from_values
   Ops.var_exists Ops.var_for_all Ops.bdd_exists Ops.bdd_for_all Ops.binary_op_with_exists Ops.binary_op_with_for_all Ops.binary_op_nested
   Ops.var_select Ops.select Ops.restrict Ops.var_restrict Ops.var_pick Ops.var_pick_random Ops.pick Ops.pick_random Ops.substitute
-  Ops.mk_dnf Ops.mk_cnf Ops.mk_sat_k Ops.support
+  Ops.cmp_implies Ops.mk_dnf Ops.mk_cnf Ops.mk_sat_k Ops.support
   Ops.bdd_not Ops.fused_ternary_flip_op Ops.ternary_op Ops.if_then_else Ops.op3_of_table
   Apply.op_of_table Apply.op_and Apply.op_or Apply.op_imp Apply.op_iff Apply.op_xor Apply.op_and_not.
